@@ -469,8 +469,16 @@ fn main() {
                         if matches!(ho, HonestShape::None | HonestShape::AnchorsOnly) && h != hs[0] {
                             continue;
                         }
+                        // the half-million / million-edge cliques: smallest honest graph, no statistics only
+                        let heavy = matches!(sy, SybilShape::Clique | SybilShape::CliqueSelf) && s >= 500;
+                        if heavy && h != hs[0] {
+                            continue;
+                        }
                         for outward in [false, true] {
                             for equal_stats in [false, true] {
+                                if heavy && equal_stats {
+                                    continue;
+                                }
                                 fams.push(Fam { s, a, h, sy, ho, outward, equal_stats });
                             }
                         }
